@@ -19,7 +19,7 @@ sys.path.insert(0, HERE)
 import overlay
 import families
 
-TAG_RE = re.compile(r"^(C\d\d):")
+TAG_RE = re.compile(r"^((?:C\d\d)(?:,C\d\d)*):")
 
 def log(*a):
     print(*a, flush=True)
@@ -31,19 +31,41 @@ def env_offline():
     return e
 
 def limit_mem(gb):
+    # (an address-space rlimit makes CBMC and the Kani driver abort spuriously: resident memory is
+    #  policed by a watchdog instead, see rss_watchdog)
     def f():
-        lim = int(gb * (1 << 30))
-        try:
-            resource.setrlimit(resource.RLIMIT_AS, (lim, lim))
-        except Exception:
-            pass
         os.setsid()
     return f
+
+def rss_watchdog(pgid, cap_gb, stop, killed):
+    """Kill any cbmc process of our process group whose RSS exceeds the cap (=> inconclusive)."""
+    page = os.sysconf("SC_PAGE_SIZE")
+    while not stop.is_set():
+        try:
+            for d in os.listdir("/proc"):
+                if not d.isdigit():
+                    continue
+                try:
+                    st = open(f"/proc/{d}/stat").read()
+                    rp = st.rfind(")")
+                    comm = st[st.find("(") + 1:rp]
+                    f = st[rp + 2:].split()
+                    if comm != "cbmc" or int(f[2]) != pgid:
+                        continue
+                    rss = int(f[21]) * page
+                    if rss > cap_gb * (1 << 30):
+                        os.kill(int(d), 9)
+                        killed.append((int(d), rss))
+                except (OSError, ValueError, IndexError):
+                    continue
+        except OSError:
+            pass
+        stop.wait(2.0)
 
 def run_kani(src, target, harnesses, jobs, timeout_s, mem_gb, out_json, solver=None, logf=None):
     cmd = ["cargo", "kani", "--target-dir", target, "-Z", "stubbing", "-Z", "unstable-options",
            "-j", str(jobs), "--output-format", "terse", "--harness-timeout", f"{timeout_s}s",
-           "--export-json", out_json, "--exact"]
+           "--export-json", out_json, "--exact", "--no-assertion-reach-checks"]
     if solver:
         cmd += ["--solver", solver]
     for h in harnesses:
@@ -52,6 +74,10 @@ def run_kani(src, target, harnesses, jobs, timeout_s, mem_gb, out_json, solver=N
     with open(logf, "w") as lf:
         p = subprocess.Popen(cmd, cwd=src, env=env_offline(), stdout=lf, stderr=subprocess.STDOUT,
                              preexec_fn=limit_mem(mem_gb))
+        import threading
+        stop, killed = threading.Event(), []
+        wd = threading.Thread(target=rss_watchdog, args=(p.pid, mem_gb, stop, killed), daemon=True)
+        wd.start()
         try:
             # global guard: all harnesses, in waves of `jobs`
             waves = (len(harnesses) + jobs - 1) // jobs
@@ -62,6 +88,14 @@ def run_kani(src, target, harnesses, jobs, timeout_s, mem_gb, out_json, solver=N
             except Exception:
                 pass
             p.wait()
+        finally:
+            stop.set()
+            try:
+                os.killpg(p.pid, 9)   # no orphan cbmc, whatever happened to the driver
+            except Exception:
+                pass
+        if killed:
+            lf.write(f"\nverif watchdog: killed {len(killed)} cbmc process(es) above {mem_gb} GB RSS\n")
     return time.time() - t0
 
 def parse_results(out_json, harnesses, logf):
@@ -93,7 +127,7 @@ def parse_results(out_json, harnesses, logf):
             res[h]["props"] = e.get("property_details", {})
     return res, None
 
-def classify(rec):
+def classify(rec, required=()):
     """Split a harness record into violations / inconclusive reasons / covers."""
     viol, incon, covers_sat, covers_unsat = [], [], 0, 0
     st = rec["status"]
@@ -106,14 +140,16 @@ def classify(rec):
         return viol, incon, covers_sat, covers_unsat
     for c in checks:
         s = (c.get("status") or "").upper()
-        desc = c.get("description") or ""
+        desc = (c.get("description") or "").strip().strip('"')
         cat = c.get("category") or ""
         if cat == "cover" or s in ("SATISFIED", "UNSATISFIABLE", "UNCOVERED", "COVERED"):
             if s == "SATISFIED":
                 covers_sat += 1
             elif s in ("UNSATISFIABLE", "UNREACHABLE"):
-                covers_unsat += 1
-                incon.append(f"vacuity: cover '{desc}' is {s}")
+                # a cover is REQUIRED when it is an "end ... reached" witness or listed for the harness
+                if desc.startswith("end ") or desc in required:
+                    covers_unsat += 1
+                    incon.append(f"vacuity: cover '{desc}' is {s}")
             elif s == "UNDETERMINED":
                 incon.append(f"cover '{desc}' undetermined")
             continue
@@ -125,12 +161,14 @@ def classify(rec):
             else:
                 m = TAG_RE.match(desc)
                 loc = c.get("location") or {}
-                viol.append({"tag": m.group(1) if m else "C08", "description": desc,
+                viol.append({"tags": m.group(1).split(",") if m else ["C08"], "tag": m.group(1) if m else "C08", "description": desc,
                              "function": c.get("function"), "file": loc.get("file"),
                              "line": loc.get("line"), "category": cat})
         elif s == "UNDETERMINED":
             # only meaningful if nothing failed: then it is a solver/time problem
             pass
+    if viol:
+        incon = [i for i in incon if not i.startswith("vacuity:")]
     if st != "Success" and not viol and not incon:
         und = sum(1 for c in checks if (c.get("status") or "").upper() == "UNDETERMINED")
         incon.append(f"status={st} with {und} undetermined checks")
@@ -301,13 +339,13 @@ def run(prop, a, seed, scratch, t_start):
     nontrivial = 0
     for h in names:
         r = recs[h]
-        v, inc, cs, cu = classify(r)
+        v, inc, cs, cu = classify(r, byname[h].required)
         stt = r["stats"]
         solver_s += stt.get("runtime_solver_s", 0) or 0
         symex_s += stt.get("runtime_symex_s", 0) or 0
         vccs += stt.get("vccs_generated", 0) or 0
-        mine = [x for x in v if x["tag"] == prop]
-        others = [x for x in v if x["tag"] != prop]
+        mine = [x for x in v if prop in x["tags"]]
+        others = [x for x in v if prop not in x["tags"]]
         expect_fail = byname[h].expect_fail
         if expect_fail:
             # vacuity twin: its final assert(false) MUST be reported as failed
